@@ -103,6 +103,25 @@ def run(ctx):
     ys = eng.run_backend(ctx, PID, 'yosys', designs, ncyc, cache)
   finally:
     eng.finish_case = orig_finish
+  # --- the flat port map the translator itself reports (utility.gen_mapped_ports, consumed by the import pass)
+  nmap = 0
+  for r in ys:
+    if r.f is None or not r.ports or r.status in ('rejected', 'unmodelled', 'syntax'): continue
+    mod = r.f.module(r.topname)
+    if mod is None: continue
+    try:
+      top = r.d.factory(); top.elaborate()
+      probs = sv.check_flat_port_map(top, r.ports, mod)
+    except Exception as e:
+      probs = [('map-crash', f'gen_mapped_ports raised {type(e).__name__}: {str(e)[:160]}')]
+    nmap += 1
+    ctx.count(('portmap', r.d.name), True, cls='flat-port-map:' + ('ok' if not probs else 'differs'))
+    for cls_, msg in probs[:1]:
+      key = f'{PID}:{r.d.name}:flat-port-map' if r.d.kind in ('directed', 'case') else f'{PID}:flat-port-map:{cls_}'
+      ctx.violation(key, f'{r.d.name}: the flat port map reported by the Yosys translator (gen_mapped_ports) is not faithful: {msg}' + (f' (+{len(probs) - 1} more)' if len(probs) > 1 else ''),
+                    {'design': r.d.name, 'kind': r.d.kind, 'design_source': r.d.source, 'problems': [m for _, m in probs[:12]],
+                     'emitted_ports': [pn for _, (pn, t, dims) in mod['ports']][:60]})
+  ctx.extra['flat_port_maps_checked'] = nmap
   # --- the layout used for the expected slices is the one the theorem is about
   shapes = {}
   for r in ys:
